@@ -68,6 +68,7 @@ type Ctx struct {
 	NShards int
 	Cases   int
 	Verbose bool
+	Arg     string // property-specific argument of a replay
 	Rec     *Recorder
 	Idx     int
 	State   any // per-process state of the property
@@ -115,6 +116,8 @@ type Recorder struct {
 	samples  []any
 	max      map[string]float64
 	nviol    int
+	// Last is the most recent violation (kind: detail), for callers that run the monitors in-process
+	Last string
 }
 
 // NewRecorder opens the output stream
@@ -197,6 +200,7 @@ func (r *Recorder) ViolationAt(idx int, kind, detail string, extra map[string]an
 	r.mu.Lock()
 	defer r.mu.Unlock()
 	r.nviol++
+	r.Last = kind + ": " + detail
 	if r.nviol > 200 {
 		return // enough
 	}
